@@ -29,7 +29,7 @@ def run(R):
             if r < 0.97: ops.append(CS.crypt_op(R.rng.choice(["r", "rn"]), R.rng.randrange(3), ph, st))
             else: ops.append(CS.crypt_op("rn", R.rng.randrange(3), ph, st, R.rng.choice([0, 100, 32767])))
             meta.append((m, "call", len(ph or b""), len(st or b"")))
-    ops, meta, il, ml = CS.run_budgeted(R, ops, meta, group_starts=starts, env={"XC_STACKSCAN": "1"} if not quick else None)
+    ops, meta, il, ml = CS.run_budgeted(R, ops, meta, group_starts=starts)
     def proj(op, a, b):
         if op.startswith("C "): return CS.proj_crypt(op, a, b)
         return None
@@ -38,7 +38,6 @@ def run(R):
     # independent notion of "got past validation": both strings present, phrase < 512, no bad character, method recognised (crypt_checksalt)
     cs = sorted({o.split(" ")[4] for o in ops if o.startswith("C ") and o.split(" ")[4] not in ("-", ".")})
     status = dict(zip(cs, [fields(l).get("status") for l in R.run_impl(["K " + s for s in cs])]))
-    stk_hits = 0
     for op, line in zip(ops, il):
         if not op.startswith("C "): continue
         t = op.split(" "); f = fields(line)
@@ -50,8 +49,33 @@ def run(R):
             bad.append((op, "the scratch areas were modified by a call that failed argument validation", line))
         if f.get("ph", "0") != "0":
             bad.append((op, "a copy of the passphrase (encoding mask %s) remains in the data object" % f.get("ph"), line))
-        if f.get("stk", "0") != "0": stk_hits += 1
-    if stk_hits: R.cov["stack_scan_hits"] = stk_hits   # -O1 build: search aid only, see DESIGN (stack clause not modelled)
+    # 1b. stack clause: the library rebuilt at -O0 (no compiler-introduced spill copies, as the property says); the stack region below the
+    #     caller is poisoned before and searched after every call for any 8-byte window of the passphrase in 7 encodings (harness/ops_crypt.h)
+    sops = []
+    slens = [8, 9, 15, 16, 17, 24, 31, 32, 33, 40, 48, 55, 56, 63, 64, 65, 72, 73, 100, 127, 128, 129, 200, 511] if quick else list(range(8, 512))
+    cheap = {"yescrypt", "gost_yescrypt", "scrypt", "sunmd5", "sha512crypt", "sha256crypt"}
+    for m in S.METHODS:
+        for n in slens:
+            if quick and m in cheap and n not in (8, 16, 33, 40, 56, 64, 65, 128, 511): continue
+            if not quick and m in cheap and n % 8 not in (0, 1): continue
+            ph = bytes(R.rng.randrange(1, 256) for _ in range(n))
+            sops.append(CS.crypt_op(R.rng.choice(["rn", "r", "st"]), 0, ph, S.CANON[m]))
+            if n in (16, 64): sops.append(CS.crypt_op("rn", 0, ph, S.CANON[m] + b"$" + S.rs(R.rng, S.A64, CS.DIGLEN.get(m, 11))))
+    for st in bads:
+        sops.append(CS.crypt_op("rn", 0, bytes(R.rng.randrange(1, 256) for _ in range(40)), st))
+    sgroups = [sops[i:i + 8] for i in range(0, len(sops), 8)]
+    _, sil, sml = R.run_pair_sharded(sgroups, variant="O0", env={"XC_STACKSCAN": "1"})
+    diffs += compare(R, sops, sil, sml, proj, "-O0 build")
+    ENC = {1: "raw", 2: "UCS-2", 4: "shifted DES key", 8: "HMAC inner pad", 16: "HMAC outer pad", 32: "byte-swapped 32-bit words", 64: "byte-swapped 64-bit words"}
+    for op, line in zip(sops, sil):
+        f = fields(line)
+        if "stk" not in f and fields(line).get("ret") is not None and unhx(op.split(" ")[3]) is not None:
+            bad.append((op, "the stack scan did not run (harness error)", line))
+        if f.get("stk", "0") != "0":
+            mask = int(f["stk"])
+            bad.append((op, "part of the passphrase (%s) remains in the stack region the call used, %s bytes below the caller's frame, in a -O0 build"
+                        % (", ".join(v for k, v in ENC.items() if mask & k), f.get("stkdepth")), line))
+    R.cov["stack_clause"] = {"calls": len(sops), "build": "-O0", "window": 8, "encodings": list(ENC.values())}
     # 2. contexts erased by the final call; HMAC buffer; crypt_ra erases before growing; gensalt erases its entropy (not observable: stack)
     hops = []
     for alg in ["md4", "md5", "sha1", "sha256", "sha512", "gost256", "gost512"]:
@@ -71,11 +95,12 @@ def run(R):
         if op.startswith("RA ") and fields(line).get("oldzero") != "1":
             bad.append((op, "crypt_ra did not erase the undersized buffer before reallocating it", line))
     n = sum(1 for o in ops if o.startswith("C "))
-    R.cov["evaluations"] = n + len(hops) + len(rops)
+    R.cov["evaluations"] = n + len(hops) + len(rops) + len(sops)
     R.cov["distinct_nontrivial"] = len({o for o in ops if o.startswith("C ")})
     R.cov["rule"] = ("histories over three objects pre-filled with 0xff / pattern / random / zero at all alignments: successful calls of all 16 methods and every kind of failing "
                      "call (bad characters, unknown/malformed settings, long or NULL phrase, small size), phrases 6..511 bytes; after every call the object is scanned: "
-                     "scratch all-zero iff validated, unchanged otherwise, and no passphrase copy in 6 encodings; digest contexts after final; crypt_ra grow path")
+                     "scratch all-zero iff validated, unchanged otherwise, and no passphrase copy in 6 encodings; stack clause: all 16 methods x phrase lengths %s in a -O0 build, "
+                     "poisoned stack region searched for every 8-byte window of the phrase in 7 encodings; digest contexts after final; crypt_ra grow path" % ("8..511" if not quick else str(slens)))
     CS.dist_cov(R, [m for o, m in zip(ops, meta) if o.startswith("C ")], [l for o, l in zip(ops, il) if o.startswith("C ")])
     CS.sample_cov(R, ops, il, ml)
     finish_proof(R, ok, badthm, bad, diffs, "object wipe")
